@@ -67,6 +67,9 @@ class Guards:
                     out.append(cond_fact(dt, bool(v)))
                 else:
                     out.append(("cmp", "Eq", dt, T.C(v)))
+                    if dt[0] == "discr" and dt[1][0] == "checked" and dt[1][1] == "Sub" and v in (0, 1):
+                        # x.checked_sub(y) is Some  <=>  x >= y
+                        out.append(("cmp", "Ge" if v == 1 else "Lt", dt[1][2][0], dt[1][2][1]))
             else:
                 vals = label[1]
                 if dty == "bool":
@@ -78,6 +81,8 @@ class Guards:
                 else:
                     for v in vals:
                         out.append(("cmp", "Ne", dt, T.C(v)))
+                    if dt[0] == "discr" and dt[1][0] == "checked" and dt[1][1] == "Sub" and tuple(vals) in ((0,), (1,)):
+                        out.append(("cmp", "Ge" if tuple(vals) == (0,) else "Lt", dt[1][2][0], dt[1][2][1]))
         elif k == "assert":
             ct = self.tb.operand(t["cond"], at)
             out.append(cond_fact(ct, bool(t["expected"])))
